@@ -45,6 +45,29 @@ def worker(kp, job):
         mc, it = None, None
     if M > 0 and (mc != M or it != list(range(1, M + 1))):
         viol0.append(('iteration', f'measures_count() = {mc}, list(doc) = {it}, the text has {M} measures', {'text': text}))
+    if M > 0:
+        # overlapping iterations (nested loops enumerate all ranges a <= b; zip; two handles): each yields 1..M on its own
+        try:
+            outer = []
+            for a_ in doc:
+                outer.append(a_)
+                inner = [b_ for b_ in doc]
+                if inner != list(range(1, M + 1)):
+                    viol0.append(('iteration', f'an iteration started inside another one yields {inner}, the text has {M} measures', {'text': text}))
+                    break
+                if len(outer) > M + 2:
+                    break
+            zipped = list(zip(doc, doc))
+            i1, i2 = iter(doc), iter(doc)
+            first = [next(i1, None), next(i2, None), next(i1, None)]
+            if outer != list(range(1, M + 1)) and not viol0:
+                viol0.append(('iteration', f'the outer loop of two nested iterations over the document yields {outer}, the text has {M} measures', {'text': text}))
+            elif zipped != [(k, k) for k in range(1, M + 1)] and not viol0:
+                viol0.append(('iteration', f'zip(doc, doc) = {zipped[:4]}..., expected (1,1)..({M},{M})', {'text': text}))
+            elif first != [1, 1, 2 if M >= 2 else None] and not viol0:
+                viol0.append(('iteration', f'two iterators over one document interleaved give {first}', {'text': text}))
+        except Exception as e:
+            viol0.append(('iteration', f'overlapping iterations raised {type(e).__name__}', {'text': text}))
     full = docs.impl_dumps(kp, doc, **st)
     records.append(engine.rec('full', impl=full, req=docs.model_dumps_req(bad, text, **st), viol=viol0, kind='full', key=(text, 'full')))
     term_rows = 1
@@ -138,7 +161,7 @@ def run(chk):
     n = core.budget(chk, full, 80, 500)
     chk.rule = ('generated **kern documents (two thirds kern-only, one third mixed and exported with spine_types=[**kern]; with / '
                 'without opening barline, pickup, final barline; splits, comments; every 10th with signatures in some spines only) x '
-                'EVERY pair 1 <= a <= b <= M, the partition of the full export by the single-measure exports, iteration, and five '
+                'EVERY pair 1 <= a <= b <= M, the partition of the full export by the single-measure exports, iteration (also nested, zipped and interleaved), and five '
                 'out-of-range pairs; non-trivial = distinct (text, a, b)')
     results = engine.pmap(worker, [(chk.seed, i) for i in range(n)])
     engine.settle(chk, results, model)
